@@ -216,6 +216,16 @@ def gen_fit_problem(rng, kind):
             if t < 0.8:
                 ans = [C.dyadic(rng, -2, 2, 4) for _ in range(ncoeff)]
             # else: inputans omitted -> zeros
+        if kind == 'exactdet':
+            # exactly as many good points as coefficients: the fit interpolates the data
+            for i in range(n):
+                w[i] = 0.0
+            for i in rng.sample(range(n), ncoeff):
+                w[i] = C.dyadic(rng, 0.25, 4, 3)
+            good = [i for i in range(n) if w[i] > 0]
+            ngood = len(good)
+            if ngood < 2:
+                continue
         if kind == 'few':
             # fewer good points than coefficients: ncfit = ngood
             keep = rng.randint(2, max(2, ncoeff - 1))
@@ -252,6 +262,8 @@ def gen_fit_problem(rng, kind):
         c = {'f': 'fit', 'func': func, 'x': x, 'w': w, 'ncoeff': ncoeff, 'ia': ia, 'ans': ans, 'ifunc': ifunc}
         if rng.random() < 0.3:
             c['fname'] = 'f' + func       # the alias names of func_fit's function_map
+        if rng.random() < 0.25:
+            c['nctype'] = rng.choice(['npint64', 'npint32'])     # ncoeff as a numpy integer
         if kind == 'exact':
             coef = [Fr(C.dyadic(rng, -2, 2, 4)) for _ in range(ncoeff)]
             ys = [sum(ck * bk for ck, bk in zip(coef, basis_fr(func, ncoeff, xi))) for xi in x]
@@ -269,7 +281,7 @@ def gen_fit_problem(rng, kind):
 def gen_fit(ctx):
     rng = ctx.rng
     calls = []
-    plan = [('plain', 8, 150), ('nowgt', 4, 60), ('zeros', 10, 200), ('fixed', 14, 300), ('few', 5, 100), ('one', 2, 20),
+    plan = [('plain', 8, 150), ('nowgt', 4, 60), ('zeros', 10, 200), ('fixed', 14, 300), ('few', 5, 100), ('exactdet', 4, 60), ('one', 2, 20),
             ('none', 2, 20), ('ifunc', 4, 80), ('exact', 8, 150)]
     for kind, q, t in plan:
         for _ in range(ctx.n(q, t)):
@@ -335,10 +347,54 @@ def gen_fit(ctx):
 BOUNDARY_JUMPS = [(0.0, 2.0, 0.5), (0.0, 1.5, -0.75), (-1.0, 0.0, 0.5), (1.0, 2.5, 0.0), (-2.0, -0.5, 0.75), (0.0, 1.0, -0.25)]
 
 
+MASK_DTYPES = ['bool', 'i1', 'i2', 'i4', 'i8', 'u1', 'f8', 'f4']      # storage of a 0/1 inmask
+IVAR_DTYPES = ['d', 'd', 'i4', 'i8', 'f4']
+
+
+def trace_weights(c, t):
+    nx = len(c['xpos'][t])
+    return [(1.0 if c['ivar'] is None else c['ivar'][t][i]) * (1.0 if c['inmask'] is None or c['inmask'][t][i] else 0.0)
+            for i in range(nx)]
+
+
+def trace_feasible(c):
+    """enough good points per trace, distinct normalised abscissae, well conditioned"""
+    lo = min(min(r) for r in c['xpos'])
+    hi = max(max(r) for r in c['xpos'])
+    xmin = c['xmin'] if c['xmin'] is not None else lo
+    xmax = c['xmax'] if c['xmax'] is not None else hi
+    if not xmax > xmin:
+        return False
+    for t in range(len(c['xpos'])):
+        w = trace_weights(c, t)
+        ngood = sum(1 for v in w if v > 0)
+        if ngood < c['ncoeff'] + 1:
+            return False
+        xn = [xnorm_fr(xmin, xmax, c['jump'], v) for v in c['xpos'][t]]
+        if len(set(xn[i] for i in range(len(w)) if w[i] > 0)) < ngood:
+            return False
+        if not cond_ok(c['func'], xn, w, c['ncoeff'], list(range(c['ncoeff'])), None, 1e5):
+            return False
+    return True
+
+
+def add_junk(rng, c):
+    """the same positions with other data at every point of zero weight (harness-only: the implementation is run on both)"""
+    nt = len(c['xpos'])
+    if not any(w == 0 for t in range(nt) for w in trace_weights(c, t)):
+        return
+    integer = bool(c.get('ydtype'))
+    c['junk'] = [[(y if w > 0 else (float(rng.randint(-90, 90)) if integer else C.dyadic(rng, -64, 64, 4)))
+                  for y, w in zip(c['ypos'][t], trace_weights(c, t))] for t in range(nt)]
+
+
 def gen_trace(ctx):
+    """xy2traceset problems.  Positions are drawn in quarter units on a base range of a few units and then mapped affinely,
+    x -> off + 2^e x: pixel-like ranges (e = 0), ranges below ONE unit (e < 0: log10(lambda) or normalised detector
+    coordinates as abscissa), ranges of tens of units, offsets of either sign (negative abscissae included)."""
     rng = ctx.rng
     calls = []
-    for k in range(ctx.n(16, 300)):
+    for k in range(ctx.n(24, 300)):
         for _attempt in range(200):
             func = rng.choice(['legendre', 'chebyshev', 'poly'])
             ncoeff = rng.randint(1, 4)
@@ -348,8 +404,21 @@ def gen_trace(ctx):
                 func = 'legendre'
             nt = rng.randint(1, 3)
             nx = rng.randint(max(ncoeff + 2, 5), 9)
-            xpos = []
             intpos = (k % 6 == 4)      # integer-typed positions (pixel numbers)
+            # scale and offset of the abscissa
+            e, off = 0, 0.0
+            kk = (k + k // 6) % 3       # (decorrelated from the maxiter / jump / integer-position patterns in k)
+            if not intpos and kk == 1:
+                e = rng.randint(-12, -5) if rng.random() < 0.5 else rng.randint(-4, -1)
+                off = rng.choice([0.0, 3.5, -7.25, 1024.0, -300.5, C.dyadic(rng, -8, 8, 2)])
+            elif not intpos and kk == 2:
+                e = rng.choice([1, 2])
+                off = rng.choice([0.0, -64.0, 100.5, C.dyadic(rng, -40, 40, 1)])
+            sc = 2.0 ** e
+
+            def mp(v):
+                return off + sc * v
+            xpos = []
             for _ in range(nt):
                 start = float(rng.randint(0, 3)) if intpos else C.dyadic(rng, 0, 3, 2)
                 row = [start]
@@ -357,7 +426,7 @@ def gen_trace(ctx):
                     row.append(row[-1] + (float(rng.randint(1, 2)) if intpos else C.dyadic(rng, 0.5, 2, 2)))
                 xpos.append(row)
             ypos = [[C.dyadic(rng, -4, 4, 5) for _ in range(nx)] for _ in range(nt)]
-            c = {'f': 'trace', 'func': func, 'ncoeff': ncoeff, 'xpos': xpos, 'ypos': ypos,
+            c = {'f': 'trace', 'func': func, 'ncoeff': ncoeff, 'xpos': [[mp(v) for v in r] for r in xpos], 'ypos': ypos,
                  'ivar': None, 'inmask': None, 'xmin': None, 'xmax': None, 'jump': None}
             # keywords left to their defaults (func='legendre', ncoeff=3, maxiter=10) and explicit maxiter 0, 1, 3, 10
             omit = []
@@ -368,58 +437,65 @@ def gen_trace(ctx):
             if omit:
                 c['omit'] = omit
             c['maxiter'] = [None, 0, 1, None, 3, 10][k % 6]
+            tag_w = ''
             if rng.random() < 0.6:
-                c['ivar'] = [[(0.0 if rng.random() < 0.2 else C.dyadic(rng, 0.25, 4, 2)) for _ in range(nx)] for _ in range(nt)]
-            if rng.random() < 0.4:
+                # inverse variances as float64, as INTEGER counts (i4 / i8) and as float32
+                ivd = rng.choice(IVAR_DTYPES)
+                if ivd.startswith('i'):
+                    c['ivar'] = [[float(0 if rng.random() < 0.2 else rng.randint(1, 4)) for _ in range(nx)] for _ in range(nt)]
+                else:
+                    c['ivar'] = [[(0.0 if rng.random() < 0.2 else C.dyadic(rng, 0.25, 4, 2)) for _ in range(nx)] for _ in range(nt)]
+                if ivd != 'd':
+                    c['ivdtype'] = ivd
+                    tag_w += '-ivar:' + ivd
+            if rng.random() < 0.5 or k % 4 == 1:
+                # inmask (True = use the point) in every storage type a 0/1 mask comes in
                 c['inmask'] = [[rng.random() > 0.2 for _ in range(nx)] for _ in range(nt)]
+                if k % 4 == 1:
+                    # masked points in the interior AND not only at the last two positions, at least one per trace
+                    for row in c['inmask']:
+                        row[rng.randrange(0, nx - 2)] = False
+                        row[nx - 1] = row[nx - 2] = True
+                c['mdtype'] = MASK_DTYPES[(k // 4) % len(MASK_DTYPES)] if k % 4 == 1 else rng.choice(MASK_DTYPES)
+                tag_w += '-inmask:' + c['mdtype']
             lo = min(min(r) for r in xpos)
             hi = max(max(r) for r in xpos)
             if rng.random() < 0.3:
-                c['xmin'] = math.floor(lo) - rng.choice([0, 1])
-                c['xmax'] = math.ceil(hi) + rng.choice([0, 1, 0.5])
+                c['xmin'] = mp(math.floor(lo) - rng.choice([0, 1]))
+                c['xmax'] = mp(math.ceil(hi) + rng.choice([0, 1, 0.5]))
             if k % 2 == 1:
                 jl = C.dyadic(rng, lo + 1, max(lo + 1, hi - 2), 2)
-                c['jump'] = [jl, jl + C.dyadic(rng, 0.5, 2, 2), C.dyadic(rng, -1, 1, 3) or 0.25]
-                if k // 2 < len(BOUNDARY_JUMPS):
+                c['jump'] = [mp(jl), mp(jl + C.dyadic(rng, 0.5, 2, 2)), sc * (C.dyadic(rng, -1, 1, 3) or 0.25)]
+                if k // 2 < len(BOUNDARY_JUMPS) and e == 0:
                     # boundary jump parameters: xjumplo = 0, xjumphi = 0, xjumpval = 0, negative values
                     c['jump'] = list(BOUNDARY_JUMPS[k // 2])
-            # conditioning and enough good points per trace
-            xmin = c['xmin'] if c['xmin'] is not None else lo
-            xmax = c['xmax'] if c['xmax'] is not None else hi
-            ok = True
-            for t in range(nt):
-                w = [(1.0 if c['ivar'] is None else c['ivar'][t][i]) * (1.0 if c['inmask'] is None or c['inmask'][t][i] else 0.0)
-                     for i in range(nx)]
-                ngood = sum(1 for v in w if v > 0)
-                if ngood < ncoeff + 1:
-                    ok = False
-                    break
-                xn = [xnorm_fr(xmin, xmax, c['jump'], v) for v in xpos[t]]
-                if len(set(xn[i] for i in range(nx) if w[i] > 0)) < ngood:
-                    ok = False
-                    break
-                if not cond_ok(func, xn, w, ncoeff, list(range(ncoeff)), None, 1e5):
-                    ok = False
-                    break
-            if ok:
-                tag = 'trace-' + ('jump' if c['jump'] else 'nojump') + ('-defaults' if c.get('omit') else '') + \
-                    ('' if c['maxiter'] is None else '-maxiter%d' % c['maxiter'])
-                if intpos:
-                    c['xdtype'] = 'i8' if k % 4 else 'i4'
-                    tag += '-intx'
-                if k % 5 == 2:
-                    # integer-typed positions (pixel counts)
-                    c['ypos'] = [[float(round(v)) for v in row] for row in c['ypos']]
-                    c['ydtype'] = 'i8' if k % 2 else 'i4'
-                    tag += '-inty'
-                if k % 7 == 3 and nt >= 2:
-                    # one trace masked completely (no good point: coefficients and fitted values are zero)
-                    if c['ivar'] is None:
-                        c['ivar'] = [[1.0] * nx for _ in range(nt)]
-                    c['ivar'][nt - 1] = [0.0] * nx
-                    tag += '-maskedrow'
-                calls.append((tag, c))
-                break
+            if not trace_feasible(c):
+                continue
+            span = (c['xmax'] if c['xmax'] is not None else mp(hi)) - (c['xmin'] if c['xmin'] is not None else mp(lo))
+            tag = 'trace-' + ('jump' if c['jump'] else 'nojump') + ('-defaults' if c.get('omit') else '') + \
+                ('' if c['maxiter'] is None else '-maxiter%d' % c['maxiter']) + \
+                ('-range<1' if span < 1 else '-range>32' if span > 32 else '') + ('-offset' if off else '') + tag_w
+            if intpos:
+                c['xdtype'] = 'i8' if k % 4 else 'i4'
+                tag += '-intx'
+            if k % 5 == 2:
+                # integer-typed positions (pixel counts)
+                c['ypos'] = [[float(round(v)) for v in row] for row in c['ypos']]
+                c['ydtype'] = 'i8' if k % 2 else 'i4'
+                tag += '-inty'
+            if k % 7 == 3 and nt >= 2:
+                # one trace masked completely (no good point: coefficients and fitted values are zero)
+                if c['ivar'] is None:
+                    c['ivar'] = [[1.0] * nx for _ in range(nt)]
+                c['ivar'][nt - 1] = [0.0] * nx
+                tag += '-maskedrow'
+            add_junk(rng, c)
+            if k % 3 == 2 or k % 8 == 1:
+                # memory layout of ALL 2-D arguments (positions, data, weights, mask): Fortran order, transposed view, strided, reversed strides
+                c['layout'] = ['F', 'T', 'strided', 'rev', 'revrows'][(k // 3) % 5]
+                tag += '-layout:' + c['layout']
+            calls.append((tag, c))
+            break
         else:
             raise RuntimeError('could not generate a trace case')
     return calls
@@ -434,37 +510,126 @@ def xnorm_fr(xmin, xmax, jump, x):
     return 2 * (x - (Fr(xmin) + Fr(xmax)) / 2) / (Fr(xmax) - Fr(xmin))
 
 
+IJ_TOKENS = [('omit', False), ('False', False), ('0', False), ('None', False), ('npFalse', False),
+             ('True', True), ('1', True), ('npTrue', True)]
+
+
 def gen_eval(ctx):
+    """stored trace sets (FITS records) evaluated at given positions or on the default grid.  Ranges: pixel-like (3..10 units),
+    below one unit (2^-12 .. 2^-1 of that, any offset), and up to 2^20 times that (evaluation at given positions; the default
+    grid of a long range is checked in the implementation's process and sampled)."""
     rng = ctx.rng
     calls = []
-    for k in range(ctx.n(24, 500)):
+    for k in range(ctx.n(32, 500)):
         func = rng.choice(['legendre', 'chebyshev', 'poly'])
         nt = rng.randint(1, 4)
         nc = rng.randint(1, 6)
-        xmin = C.dyadic(rng, -2, 10, 2)
-        xmax = xmin + C.dyadic(rng, 3, 10, 2 if rng.random() < 0.5 else 0)
+        e, off = 0, 0.0
+        fam = ''
+        if k >= len(BOUNDARY_JUMPS) and k % 4 == 2:
+            e = rng.randint(-12, -2)
+            off = rng.choice([0.0, 3.5, -7.25, 1024.0, -300.5])
+            fam = '-range<1'
+        elif k >= len(BOUNDARY_JUMPS) and k % 4 == 3:
+            e = rng.randint(3, 20)
+            off = rng.choice([0.0, -4096.0, 1000.5])
+            fam = '-range>32'
+        sc = 2.0 ** e
+        xmin = off + sc * C.dyadic(rng, -2, 10, 2)
+        xmax = xmin + sc * C.dyadic(rng, 3, 10, 2 if rng.random() < 0.5 else 0)
         coeff = [[C.dyadic(rng, -4, 4, 5) for _ in range(nc)] for _ in range(nt)]
         c = {'f': 'eval', 'func': func, 'xmin': xmin, 'xmax': xmax, 'coeff': coeff, 'jump': None, 'xpos': None,
              'ignore_jump': False}
         if rng.random() < 0.6:
-            jl = xmin + C.dyadic(rng, 0.5, 1.5, 2)
-            c['jump'] = [jl, jl + C.dyadic(rng, 0.25, 1, 2), C.dyadic(rng, -1, 1, 3) or 0.5]
-            c['ignore_jump'] = rng.random() < 0.3
+            jl = xmin + sc * C.dyadic(rng, 0.5, 1.5, 2)
+            c['jump'] = [jl, jl + sc * C.dyadic(rng, 0.25, 1, 2), sc * (C.dyadic(rng, -1, 1, 3) or 0.5)]
+            # every spelling of the boolean keyword: omitted, False, 0, None, numpy.bool_(False), True, 1, numpy.bool_(True)
+            c['ij_token'], c['ignore_jump'] = IJ_TOKENS[(k // 2) % len(IJ_TOKENS)] if k % 2 else rng.choice(IJ_TOKENS)
         if k < len(BOUNDARY_JUMPS):
             # stored trace sets whose jump parameters sit on a boundary (XJUMPLO = 0, XJUMPHI = 0, XJUMPVAL = 0, negative)
             c['xmin'] = xmin = C.dyadic(rng, -3, -1, 2)
             c['xmax'] = xmax = xmin + C.dyadic(rng, 4, 10, 2 if k % 2 else 0)
             c['jump'] = list(BOUNDARY_JUMPS[k])
             c['ignore_jump'] = False
-        if rng.random() < 0.5:
+            c.pop('ij_token', None)
+        if rng.random() < 0.5 or e > 2:
             npt = rng.randint(1, 6)
-            c['xpos'] = [[C.dyadic(rng, xmin, xmax, 4) for _ in range(npt)] for _ in range(nt)]
+            c['xpos'] = [[xmin + (xmax - xmin) * C.dyadic(rng, 0, 1, 4) for _ in range(npt)] for _ in range(nt)]
             if k % 4 == 1:
                 # evaluation at integer-typed positions (pixel numbers)
                 c['xpos'] = [[float(rng.randint(math.ceil(xmin), math.floor(xmax))) for _ in range(npt)] for _ in range(nt)]
                 c['xdtype'] = 'i4' if k % 8 == 1 else 'i8'
+        if e > 2 and e <= 16 and k % 8 == 3:
+            # a LONG default grid (up to 2^19 columns): shape and values checked where it is computed, a sample judged in Coq
+            c['xpos'] = None
+            c['big_grid'] = [rng.randrange(1 << 30) for _ in range(4)]
+            fam += '-biggrid'
+        if c['xpos'] is not None and k % 3 == 0:
+            c['layout'] = ['F', 'T', 'strided', 'rev', 'revrows'][(k // 3) % 5]
+            fam += '-layout:' + c['layout']
+        if k % 5 == 4:
+            # derived objects: a pickled / deep-copied trace set evaluates like the original
+            c['derived'] = 'pickle' if k % 2 else 'deepcopy'
+            fam += '-' + c['derived']
         calls.append(('eval-' + ('grid' if c['xpos'] is None else 'xpos') + ('-jump' if c['jump'] else '')
-                      + ('-intx' if c.get('xdtype') else ''), c))
+                      + ('-intx' if c.get('xdtype') else '') + fam + ('-ij:' + c['ij_token'] if c.get('ij_token') else ''), c))
+    return calls
+
+
+def strip_seq(c):
+    return {k: v for k, v in public(c).items() if k not in ('seq_calls', 'seq_pos')}
+
+
+def gen_seq(ctx, evals, traces):
+    """DIFFERENT trace sets on the SAME grid (function, number of coefficients, xmin, xmax) but with different jump parameters,
+    coefficients and numbers of traces, built and evaluated one after the other in ONE process: every one of them is judged as
+    if it were alone (class-level state keyed on too little would leak from one object into the next)."""
+    rng = ctx.rng
+    calls = []
+    for k in range(ctx.n(4, 24)):
+        func = rng.choice(['legendre', 'chebyshev', 'poly'])
+        nc = rng.randint(2, 5)
+        xmin = C.dyadic(rng, -2, 10, 2)
+        xmax = xmin + C.dyadic(rng, 4, 10, 2 if k % 2 else 0)
+        subs = []
+        jl = xmin + C.dyadic(rng, 0.5, 1.5, 2)
+        jumps = [None, [jl, jl + C.dyadic(rng, 0.25, 1, 2), C.dyadic(rng, 0.25, 1, 3)],
+                 [jl + 0.5, jl + 0.5 + C.dyadic(rng, 0.25, 1, 2), -C.dyadic(rng, 0.25, 1, 3)]]
+        rng.shuffle(jumps)
+        for j in jumps + [jumps[0]]:
+            nt = rng.randint(1, 3)
+            subs.append({'f': 'eval', 'func': func, 'xmin': xmin, 'xmax': xmax, 'jump': j, 'xpos': None, 'ignore_jump': False,
+                         'coeff': [[C.dyadic(rng, -4, 4, 5) for _ in range(nc)] for _ in range(nt)], 'tag': 'eval-grid-sameGrid'})
+        last = dict(subs[1], tag='eval-xpos-sameGrid')
+        last['xpos'] = [[C.dyadic(rng, xmin, xmax, 4) for _ in range(3)] for _ in last['coeff']]
+        subs.append(last)
+        calls.append(('seq-eval', {'f': 'seq', 'calls': subs}))
+    # fitted trace sets: the same positions (hence the same xmin / xmax), function and order; other data and other jumps
+    pool = [c for _, c in traces if not c.get('xdtype') and not c.get('ydtype') and not c.get('omit')]
+    for k, base in enumerate(pool[:ctx.n(4, 24)]):
+        lo = min(min(r) for r in base['xpos'])
+        hi = max(max(r) for r in base['xpos'])
+        subs = [dict(base, tag='trace-sameGrid')]
+        for _attempt in range(40):
+            d = dict(base, tag='trace-sameGrid')
+            d['ypos'] = [[C.dyadic(rng, -4, 4, 5) for _ in row] for row in base['ypos']]
+            d.pop('junk', None)
+            if base['jump'] is None or len(subs) == 2:
+                a = lo + (hi - lo) * C.dyadic(rng, 0.125, 0.5, 3)
+                d['jump'] = [a, a + (hi - lo) * C.dyadic(rng, 0.0625, 0.25, 4), (hi - lo) * C.dyadic(rng, -0.125, 0.125, 4) or (hi - lo) / 16]
+            else:
+                d['jump'] = None
+            if trace_feasible(d):
+                subs.append(d)
+            if len(subs) == 3:
+                break
+        if len(subs) >= 2:
+            subs.append(dict(subs[0]))
+            calls.append(('seq-trace', {'f': 'seq', 'calls': subs}))
+    for _, c in calls:
+        plain = [strip_seq(d) for d in c['calls']]
+        c['calls'] = [dict(d, seq_calls=plain, seq_pos=i) for i, d in enumerate(plain)]
+        c['_send'] = plain
     return calls
 
 
@@ -472,7 +637,7 @@ def gen_history(ctx, evals, traces):
     """multi-call histories on ONE TraceSet object (built from a stored record or by fitting)"""
     rng = ctx.rng
     calls = []
-    makes = [c for _, c in evals[:ctx.n(8, 60)]] + [c for _, c in traces[:ctx.n(4, 30)] if not c.get('ydtype')]
+    makes = [c for _, c in evals if c['xmax'] - c['xmin'] <= 64][:ctx.n(8, 60)] + [c for _, c in traces[:ctx.n(4, 30)] if not c.get('ydtype')]
     for k, mk in enumerate(makes):
         nt = len(mk['coeff']) if mk['f'] == 'eval' else len(mk['xpos'])
         lo = mk['xmin'] if mk.get('xmin') is not None else min(min(r) for r in mk['xpos'])
@@ -551,6 +716,9 @@ def case_term(c, r):
         o = r['ok']
         t = '{| ts_func := %s; ts_ncoeff := %d%%nat; ts_xmin := %s; ts_xmax := %s; ts_jump := %s; ts_coeff := %s |}' % (
             FTERM[c['func']], len(c['coeff'][0]), C.qlit(c['xmin']), C.qlit(c['xmax']), jump_term(c['jump']), qm(c['coeff']))
+        if o.get('big'):
+            # a sample of a long default grid: the values at the sampled abscissae (the grid itself is checked where it is computed)
+            return '(CEval %s (Some %s) %s %s %s)' % (t, qm(o['x']), C.boollit(c['ignore_jump']), qm(o['x']), qm(o['y']))
         return '(CEval %s %s %s %s %s)' % (t, C.optlit(c['xpos'], qm), C.boollit(c['ignore_jump']), qm(o['x']), qm(o['y']))
     return None
 
@@ -562,11 +730,14 @@ def public(c):
 def run_calls(calls):
     nb = min(8, max(1, len(calls) // 10))
     batches = [calls[i::nb] for i in range(nb)]
-    outs = C.run_impl_parallel('c13_impl.py', [[public(c) for _, c in b] for b in batches])
+    def wire(c):
+        return {'f': 'seq', 'calls': c['_send']} if c['f'] == 'seq' else public(c)
+    outs = C.run_impl_parallel('c13_impl.py', [[wire(c) for _, c in b] for b in batches])
     results = [None] * len(calls)
     for bi, o in enumerate(outs):
         for k, r in enumerate(o['results']):
             results[bi + k * nb] = r
+    run_calls.globals = [(key, d) for o in outs for key in ('globals_changed_by_import', 'globals_changed_by_calls') for d in (o.get(key) or [])]
     return results, outs[0]['pydl_file']
 
 
@@ -579,12 +750,31 @@ def correspond(ctx, proof_ok=True):
     if not ok:
         raise RuntimeError('C13/Model.v does not build:\n' + log[-2000:])
     traces, evals = gen_trace(ctx), gen_eval(ctx)
-    calls = gen_basis(ctx) + gen_fit(ctx) + traces + evals + gen_history(ctx, evals, traces)
+    calls = gen_basis(ctx) + gen_fit(ctx) + traces + evals + gen_history(ctx, evals, traces) + gen_seq(ctx, evals, traces)
     results, pydl_file = run_calls(calls)
     ctx.coverage['pydl_file'] = pydl_file
 
     terms = []      # (call index, term)
     direct = []     # (signature, summary, replay)
+    # process-global settings (numpy error state / print options, astropy.io.fits.conf, os.environ) before and after `import pydl` and the calls
+    for key, d in getattr(run_calls, 'globals', []):
+        when = 'importing pydl' if key.endswith('import') else 'calling the trace-set functions'
+        direct.append(('C13:process-global:%s' % d['what'], '%s changed the process-global %s: %s' % (when, d['what'], d['changed']),
+                       {'kind': 'failing-input', 'call': {'f': 'import pydl' if key.endswith('import') else 'calls'}, 'changed': d['changed']}))
+    # sequences: every member is judged like a call of its kind that ran alone
+    flat_c, flat_r = [], []
+    for (tag, c), r in zip(calls, results):
+        if c['f'] != 'seq':
+            flat_c.append((tag, c))
+            flat_r.append(r)
+        elif 'ok' not in r:
+            direct.append(('C13:seq:impl=%s' % r.get('err'), '%s: the sequence of calls raised %s' % (tag, r.get('err')),
+                           {'kind': 'failing-input', 'call': {'f': 'seq', 'calls': c['_send']}, 'impl_result': r}))
+        else:
+            for j, (d, dr) in enumerate(zip(c['calls'], r['ok']['results'])):
+                flat_c.append(('%s:%s' % (tag, d.get('tag', d['f'])), d))
+                flat_r.append(dr)
+    calls, results = flat_c, flat_r
     for ci, ((tag, c), r) in enumerate(zip(calls, results)):
         if c.get('_nocoq') and 'ok' in r:
             continue
@@ -708,6 +898,16 @@ def correspond(ctx, proof_ok=True):
             if o['xy_x'] != c['xpos'] or not all(close(a, b, 1e-9) for ra, rb in zip(o['xy_y'], o['yfit']) for a, b in zip(ra, rb)):
                 direct.append(('C13:trace:%sfit-eval-inconsistent' % ('intx:' if intx(c) else ''), 'traceset2xy(xy2traceset(x, y), x) does not return the fitted values',
                                {'kind': 'failing-input', 'call': public(c), 'impl_result': r}))
+            if 'coeff_junk' in o:
+                nd += 1
+                if not o.get('junk_finite') or not all(close(a, b, 1e-12) for ra, rb in zip(o['coeff'], o['coeff_junk']) for a, b in zip(ra, rb)):
+                    bad_t = [t for t, (ra, rb) in enumerate(zip(o['coeff'], o['coeff_junk'])) if not all(close(a, b, 1e-12) for a, b in zip(ra, rb))]
+                    direct.append(('C13:trace:zero-weight-influence',
+                                   'changing ypos at points of zero weight (invvar 0 or inmask False; inmask stored as %s, invvar as %s) changed the '
+                                   'coefficients of trace(s) %s: %r -> %r' % (c.get('mdtype', 'bool') if c['inmask'] is not None else None,
+                                                                              c.get('ivdtype', 'float64') if c['ivar'] is not None else None, bad_t,
+                                                                              o['coeff'], o['coeff_junk']),
+                                   {'kind': 'failing-input', 'call': public(c), 'impl_result': r}))
             gx = o['grid_x']
             want_nx = int(math.floor(o['xmax'] - o['xmin'] + 1))
             good_grid = len(gx) == len(c['xpos']) and all(
@@ -716,6 +916,13 @@ def correspond(ctx, proof_ok=True):
                 direct.append(('C13:trace:%sdefault-grid' % ('intx:' if intx(c) else ''), 'default grid is not xmin, xmin+1, ... (floor(xmax-xmin+1) columns)',
                                {'kind': 'failing-input', 'call': public(c), 'impl_result': r}))
 
+    for ci, ((tag, c), r) in enumerate(zip(calls, results)):
+        if c['f'] == 'eval' and 'ok' in r and r['ok'].get('big'):
+            nd += 1
+            if not r['ok']['grid_ok']:
+                direct.append(('C13:eval:default-grid', 'default grid of a trace set with xmin = %r, xmax = %r has shape %s; expected %d columns xmin, xmin+1, ...'
+                               % (c['xmin'], c['xmax'], r['ok']['shape'], r['ok']['want_nx']),
+                               {'kind': 'failing-input', 'call': public(c), 'impl_result': {'ok': {k: v for k, v in r['ok'].items() if k not in ('x', 'y')}}}))
     dist = {}
     for (tag, c), r in zip(calls, results):
         k = tag + ':' + ('ok' if 'ok' in r else r.get('err', '?'))
@@ -764,6 +971,12 @@ def replay(ctx, rep):
         print('replay file has no call (kind=%s, item=%s)' % (rep.get('kind'), rep.get('item')))
         return 2
     calls = [c] + ([rep['call_b']] if rep.get('call_b') else [])
+    if c.get('seq_calls'):
+        # a member of a sequence: the whole sequence runs again in one process, the member's result is shown
+        seq = C.run_impl('c13_impl.py', [{'f': 'seq', 'calls': c['seq_calls']}])['results'][0]
+        print('sequence of %d calls in one process; member %d:' % (len(c['seq_calls']), c['seq_pos']))
+        print('in sequence:', seq['ok']['results'][c['seq_pos']] if 'ok' in seq else seq)
+        print('alone      : (below)')
     out = C.run_impl('c13_impl.py', calls)
     print('call   :', c)
     for r in out['results']:
